@@ -652,6 +652,54 @@ def run(ctx):
                       'section / key was given; indexing it raises KeyError '
                       'for a configuration without it (use .get)',
                       ctx.where(rm, n_))
+    # Q2c: a LOADED simulation is changed only by what was explicitly given:
+    # `layered` stays as stored unless -l / [simulation] layered is present
+    # (a default of False would turn a stored layered simulation into a 3D
+    # one), and the [layered] section, which the documentation does not list
+    # among the sections ignored with --load, reaches the loaded simulation
+    lb = [n_ for n_ in ast.walk(rs) if isinstance(n_, ast.If) and
+          ast.unparse(n_.test).replace('"', "'") == "cfg['files']['load']"]
+    ctx.anchor(len(lb) == 1, "`if cfg['files']['load']:` branch in cli.run")
+    lbody = lb[0].body
+    lg_ = find("_l_ = cfg['simulation_options'].get('layered', _d_)", lbody)
+    okl = len(lg_) == 1 and lg_[0][1]['_d_'] == 'None'
+    if okl:
+        L_ = lg_[0][1]['_l_']
+        sets_ = find(f'_s_.layered = {L_}', lbody)
+        okl = len(sets_) >= 1 and all(any(
+            has(f'{L_} is not None', t_) for t_, _p in au.guards_of(n_, rs))
+            for n_, _b in sets_)
+    ctx.check('C18.Q2.routing', 'cli.run --load: layered only changed when '
+              'given', okl, 'the loaded simulation gets layered = '
+              f'{lg_[0][1]["_d_"] if lg_ else "?"} when the option is absent: '
+              'a simulation stored in layered mode is silently computed in '
+              '3D (the documentation says [simulation] is ignored with '
+              '--load)', ctx.where(rm, lg_[0][0] if lg_ else lb[0]))
+    lo_ = any(isinstance(x_, ast.Constant) and x_.value == 'layered_opts'
+              for st_ in lbody for x_ in ast.walk(st_))
+    ctx.check('C18.Q2.routing', 'cli.run --load: [layered] options applied',
+              lo_, 'the options of the [layered] section never reach a loaded '
+              'simulation (only the flag is switched): it runs with its '
+              'stored / default layered options', ctx.where(rm, lb[0]))
+    # Q4d: `cache` is a shortcut for load + save; given in the configuration
+    # file it must not win over --load / --save given on the terminal
+    cs_ = find("_c_ = _f_.pop('cache')", fn)
+    okc = len(cs_) == 1
+    if okc:
+        C_, Fd = cs_[0][1]['_c_'], cs_[0][1]['_f_']
+        ov = find(f"{Fd}['load'] = {C_}", fn) + find(f"{Fd}['save'] = {C_}",
+                                                    fn)
+        for lp_, b_ in find(f"for _k_ in ['load', 'save']:\n    __", fn):
+            for n_, _b in find(f"{Fd}[{b_['_k_']}] = {C_}", lp_):
+                ov += [(n_, _b), (n_, _b)]
+        okc = len(ov) == 2 and all(
+            any({y.id for y in ast.walk(t_) if isinstance(y, ast.Name)} -
+                {C_, Fd} for t_, _p in au.guards_of(n_, fn))
+            for n_, _b in ov)
+    ctx.check('C18.Q4.precedence', '[files] cache vs --load / --save', okc,
+              'a `cache` entry of the configuration file replaces load and '
+              'save unconditionally, also when --load / --save were given on '
+              'the terminal', ctx.where(pm, cs_[0][0] if cs_ else fn))
     # Q5b: a section name the parser does not know is an unknown option too
     known_secs = set(W.remainders.values()) | {'files', 'simulation'}
     secvars = set()
